@@ -746,6 +746,11 @@ func (g *e1func) projectLocals(st *fstate) *fstate {
 			// distinguish contexts except by their construction, which a def fact of the caller's own variable records
 			x = g.anonContexts(x)
 		}
+		if mentionsLocalOf(x, g) && (fc.S == "called" || strings.HasPrefix(fc.S, "did")) {
+			// an event that happened inside the helper stays true for the caller; the helper's own variables it mentions are
+			// out of scope there and become opaque values (obligations name such positions with `_`)
+			x = g.opaqueLocals(x)
+		}
 		if !mentionsLocalOf(x, g) {
 			n.facts[x.Key()] = x
 		}
@@ -882,6 +887,9 @@ func (e *e1) isRelevant(fc *Term) bool {
 	k := fc.Key()
 	if fc.S == "eq" && e.valueEq[k] {
 		return true
+	}
+	if fc.S == "eq" && len(fc.A) == 2 && fc.A[0].K == "sel" && len(fc.A[0].A) == 1 && fc.A[0].A[0].K == "var" {
+		return true // a field store through a value the caller handed in (builder helpers filling in a struct): part of the value the caller goes on to use
 	}
 	if r, ok := e.relCache[k]; ok {
 		return r
